@@ -73,7 +73,7 @@ def showEdges (l : List (Node × Node)) : String :=
 def showErr : Err → String
   | .crossMatch => "raise:crossMatch" | .notClosed => "raise:notClosed" | .oddLength => "raise:oddLength"
   | .rowLeft => "raise:rowLeft" | .nonFused => "raise:nonFused" | .pathBounds => "raise:pathBounds"
-  | .pathType => "raise:pathType" | .badNode => "raise:badNode"
+  | .pathType => "raise:pathType" | .badNode => "raise:badNode" | .oddDefective => "raise:oddDefective"
 
 def showClusters (cls : List (List TIdx)) : String :=
   if cls.isEmpty then "." else "|".intercalate (cls.map fun c => ";".intercalate (c.map showT3))
@@ -142,6 +142,31 @@ def smwpm : List String → Option String
       let fl ← parseFlags? fl; let r ← parseInt? r; let c ← parseInt? c; let rows ← parseMat? rows
       let ms ← parseMatches? ms; let cms ← parseCMatches? cms
       pure s!"pm={showBool (matchingsOk fl r c rows ms cms)} {showEx (fun v => "rec=" ++ showBits v) (decode r c rows.length ms cms)}"
+  -- rotated toric decoder
+  | ["tnodes", r, c, rows] => do
+      let r ← parseInt? r; let c ← parseInt? c; let rows ← parseMat? rows
+      pure (showNodes (Toric.graphNodes r c rows))
+  | ["tedges", fl, r, c, rows] => do
+      let fl ← parseFlags? fl; let r ← parseInt? r; let c ← parseInt? c; let rows ← parseMat? rows
+      pure (showEdges (Toric.graphEdges fl r c rows))
+  | ["trec1", r, c, cls] => do
+      let r ← parseInt? r; let c ← parseInt? c; let cls ← parseClusters? cls
+      pure (showEx showBits (Toric.recovery r c cls))
+  | ["tcnodes", cls] => do
+      let cls ← parseClusters? cls
+      pure (showEx showCNodes (Toric.clusterNodes cls))
+  | ["tcedges", cls] => do
+      let cls ← parseClusters? cls
+      pure (showEx (fun ns => showCEdges (Toric.clusterEdges ns)) (Toric.clusterNodes cls))
+  | ["trec2", r, c, cls, cms] => do
+      let r ← parseInt? r; let c ← parseInt? c; let cls ← parseClusters? cls; let cms ← parseCMatches? cms
+      pure (match Toric.clusterNodes cls with
+        | .error e => showErr e
+        | .ok ns => showEx showBits (Toric.clusterRecovery r c ns cms))
+  | ["tdecode", fl, r, c, rows, ms, cms] => do
+      let fl ← parseFlags? fl; let r ← parseInt? r; let c ← parseInt? c; let rows ← parseMat? rows
+      let ms ← parseMatches? ms; let cms ← parseCMatches? cms
+      pure s!"pm={showBool (Toric.matchingsOk fl r c rows ms cms)} {showEx (fun v => "rec=" ++ showBits v) (Toric.decode r c ms cms)}"
   | _ => none
 
 end Qec.Drv
